@@ -277,7 +277,7 @@ type c04Op struct {
 	extra string // "" | "attr" | "hash"
 	deep  []bool // operand i promises its marks at every depth
 	call  func(a []cty.Value, attr string) cty.Value
-	model bool // one of the eighteen modelled methods (else predicate only)
+	model bool // modelled (else predicate only)
 }
 
 var c04Ops = []c04Op{
@@ -299,10 +299,10 @@ var c04Ops = []c04Op{
 	{"length", 1, "", nil, func(a []cty.Value, _ string) cty.Value { return a[0].Length() }, true},
 	{"getattr", 1, "attr", nil, func(a []cty.Value, n string) cty.Value { return a[0].GetAttr(n) }, true},
 	{"haselement", 2, "hash", []bool{false, true}, func(a []cty.Value, _ string) cty.Value { return a[0].HasElement(a[1]) }, true},
-	// compositions of the above: predicate only
-	{"notequal", 2, "", []bool{true, true}, func(a []cty.Value, _ string) cty.Value { return a[0].NotEqual(a[1]) }, false},
-	{"le", 2, "", nil, func(a []cty.Value, _ string) cty.Value { return a[0].LessThanOrEqualTo(a[1]) }, false},
-	{"ge", 2, "", nil, func(a []cty.Value, _ string) cty.Value { return a[0].GreaterThanOrEqualTo(a[1]) }, false},
+	// compositions of the above (Equals is part of each, so marks are kept at every depth)
+	{"notequal", 2, "", []bool{true, true}, func(a []cty.Value, _ string) cty.Value { return a[0].NotEqual(a[1]) }, true},
+	{"le", 2, "", []bool{true, true}, func(a []cty.Value, _ string) cty.Value { return a[0].LessThanOrEqualTo(a[1]) }, true},
+	{"ge", 2, "", []bool{true, true}, func(a []cty.Value, _ string) cty.Value { return a[0].GreaterThanOrEqualTo(a[1]) }, true},
 }
 
 func c04OpByName(name string) *c04Op {
